@@ -141,7 +141,7 @@ def run(oc, tier, seed, model_available, escalate):
                 want.append(p)
         wantrc = "1" if want else "0"
         if reported != want or rc != wantrc:
-            oc.violations.append({"input": {"tree": {p: [c.hex() if len(c) < 200 else "<%d bytes>" % len(c), m] for p, (c, m) in tree.items()},
+            oc.violations.append({"input": {"tree": {p: [c.hex(), m] for p, (c, m) in tree.items()},
                                             "mutations": kinds, "changed": sorted(touched), "opts": opts, "single": single, "relocated": relocated},
                                   "impl": {"exit": rc, "reported": reported}, "required": {"exit": wantrc, "reported": want},
                                   "what": "check mode did not report exactly the changed recorded files"})
